@@ -163,6 +163,25 @@ func encTy(t px.Type, depth int) Ty {
 		return Iter(encTy(t.ElementType(), depth))
 	case *types.IteratorType:
 		return Itr(encTy(t.ElementType(), depth))
+	case *types.RuntimeType:
+		// Parameters(): none for the default; runtime; runtime, name; runtime, name, Regexp type (Get("name_or_pattern") hides the name
+		// when there is a pattern)
+		ps := t.Parameters()
+		r := Runtime("", "")
+		if len(ps) > 0 {
+			r.S[0] = ps[0].String()
+		}
+		if len(ps) > 1 {
+			r.S[1] = ps[1].String()
+		}
+		if len(ps) > 2 {
+			if rx, ok := ps[2].(*types.RegexpType); ok {
+				r.S = append(r.S, rx.PatternString())
+			} else {
+				unmodelled("runtime-pattern")
+			}
+		}
+		return r
 	case *types.TypeAliasType:
 		switch t.Name() {
 		case "Data":
